@@ -154,6 +154,7 @@ def install(ctx, repo, probes):
         P.TimePointParser(num_expanded_year_digits=0, allow_truncated=True),
         P.TimePointParser(num_expanded_year_digits=3,
                           assumed_time_zone=(-3, -30)),
+        P.TimePointParser(allow_only_basic=True, allow_truncated=True),
     ]
     ctx.dparser = P.DurationParser()
     ctx.rparsers = [P.TimeRecurrenceParser(),
@@ -279,6 +280,51 @@ def grid_cases(ctx, mode, years):
                                           "day_of_week": dow}}
 
 
+def truncated_cases(mode):
+    """truncated points: a field given without the fields above it is
+    bounded by the mode's largest month / leap year / 53 weeks"""
+    ml = R.month_lengths(mode, 2004)        # the mode's leap table
+    for d in range(-1, 34):
+        legal = 1 <= d <= max(ml)
+        yield {"op": "ctor", "mode": mode, "what": "cal",
+               "kw": {"truncated": True, "day_of_month": d}, "legal": legal,
+               "near": True, "no_fields": True}
+        if 0 <= d <= 99:
+            yield {"op": "text", "mode": mode, "what": "cal",
+                   "text": "---%02d" % d, "legal": legal, "fields": None,
+                   "cfg": 1}
+    for mth in (0, 1, 2, 4, 12, 13):
+        for d in (0, 1, 28, 29, 30, 31, 32):
+            legal = 1 <= mth <= 12 and 1 <= d <= ml[mth - 1]
+            yield {"op": "ctor", "mode": mode, "what": "cal",
+                   "kw": {"truncated": True, "month_of_year": mth,
+                          "day_of_month": d}, "legal": legal, "near": True,
+                   "no_fields": True}
+            yield {"op": "text", "mode": mode, "what": "cal",
+                   "text": "--%02d%02d" % (mth, d), "legal": legal,
+                   "fields": None, "cfg": 1}
+    for doy in (-1, 0, 1, 359, 360, 361, 365, 366, 367):
+        legal = 1 <= doy <= sum(ml)
+        yield {"op": "ctor", "mode": mode, "what": "ord",
+               "kw": {"truncated": True, "day_of_year": doy}, "legal": legal,
+               "near": True, "no_fields": True}
+        if doy >= 0:
+            yield {"op": "text", "mode": mode, "what": "ord",
+                   "text": "-%03d" % doy, "legal": legal, "fields": None,
+                   "cfg": 1}
+    for w in (-1, 0, 1, 52, 53, 54):
+        for dow in (0, 1, 7, 8):
+            legal = 1 <= w <= 53 and 1 <= dow <= 7
+            yield {"op": "ctor", "mode": mode, "what": "week",
+                   "kw": {"truncated": True, "week_of_year": w,
+                          "day_of_week": dow}, "legal": legal, "near": True,
+                   "no_fields": True}
+            if w >= 0:
+                yield {"op": "text", "mode": mode, "what": "week",
+                       "text": "-W%02d%d" % (w, dow), "legal": legal,
+                       "fields": None, "cfg": 1}
+
+
 def time_zone_cases():
     for h in range(-1, 26):
         for m in (-1, 0, 1, 59, 60):
@@ -356,6 +402,8 @@ def time_zone_cases():
 # fuzz
 
 TP_SEEDS = [
+    "-9901T1200+01:00", "T1200+01:00", "--0412T1015-0:30", "T06+1",
+    "85W155T10+", "---12T0600Z",
     "2000-01-01", "20000101", "2000-001", "2000001", "2000-W01-1", "2000W011",
     "2000-01-01T00:00:00Z", "20000101T000000Z", "2000-12-31T24:00",
     "1985-04-12T10:15:30+04:00", "19850412T101530-0330", "1985-102T10,5",
@@ -493,7 +541,7 @@ def run_case(ctx, repo, case):
             ctx.expect = {"via": "TimePointParser", "legal": case["legal"],
                           "mode": mode, "what": case["text"], "cls": cls,
                           "fields": case.get("fields")}
-            parser = ctx.parsers[0]
+            parser = ctx.parsers[case.get("cfg", 0)]
             try:
                 res, steps = ctx.budget.run(
                     300000 + 2000 * len(case["text"]), parser.parse,
@@ -640,6 +688,13 @@ def workload(ctx, repo):
             ctx.case = case
             if i % 4001 == 0:
                 ctx.sample(case)
+            run_case(ctx, repo, case)
+    for mode in R.MODES:
+        for case in truncated_cases(mode):
+            i += 1
+            if not ctx.mine(i):
+                continue
+            ctx.case = case
             run_case(ctx, repo, case)
     for case in time_zone_cases():
         i += 1
